@@ -360,7 +360,7 @@ def run():
             g = core.Graph(eg.printed())
             if len(g.edges) < 200:
                 raise core.MachineryError("Lifecycle edge dump too small (%d)" % len(g.edges))
-            paths = g.transition_cover(rng)
+            paths = g.transition_cover(rng, tail=3)
             budget = len(paths) if thorough else (140 if (ropt and popt) else 50)
             if len(paths) > budget:
                 paths = rng.sample(paths, budget)
@@ -371,6 +371,55 @@ def run():
                 r.cov["traces_validated_against_impl"] += 1
                 if pi == 0 and ropt and popt:
                     r.sample({"options": tag, "history": [g.edges[i][1] for i in p]})
+        # ---- keep-alive in depth: no stream errors, histories of 9 events (answered, unanswered and REPLAYED pongs across several periods
+        # and a reconnect), with random tails so that a step whose damage shows only at a later tick is still followed by ticks
+        egk = core.tlc("Lifecycle", "Edges_Lifecycle_keepalive.cfg", r.scratch, workers=1, timeout=1200)
+        gk = core.Graph(egk.printed())
+        if len(gk.edges) < 500:
+            raise core.MachineryError("Lifecycle keep-alive edge dump too small (%d)" % len(gk.edges))
+        kp = [p for p in gk.transition_cover(rng, tail=3) if sum(1 for i in p if gk.edges[i][1]["name"] in ("PingTick", "Pong")) >= 3]
+        if not thorough and len(kp) > 160:
+            kp = rng.sample(kp, 160)
+        for pi, p in enumerate(kp):
+            replay_path(r, gk, p, True, True, "keep-alive", variant=(pi % 2 == 1))
+            r.case(("keepalive", tuple(p)))
+            r.cov["traces_validated_against_impl"] += 1
+        r.notes["keepalive_histories"] = len(kp)
+        # ---- a pong that is NOT the keep-alive's (the application's own ping answered, or the late pong of a ping of the previous connection)
+        # does not excuse the unanswered keep-alive ping: the connection is still closed when the next ping is due
+        from yowsup.layers.protocol_iq.protocolentities import PingIqProtocolEntity
+        for kind in ("application-ping", "previous-connection"):
+            r.case(("foreign-pong", kind))
+            r.cov["traces_validated_against_impl"] += 1
+            w = World(True, True)
+            try:
+                w.start()
+                pre = [{"name": "ConnectRequest"}, {"name": "DispatcherConnected"}, {"name": "Success"}, {"name": "PingTick"}]
+                if kind == "previous-connection":
+                    pre += [{"name": "ConnectionLost", "why": "peer-close"}, {"name": "LoopStep"}, {"name": "ConnectRequest"}, {"name": "DispatcherConnected"},
+                            {"name": "Success"}, {"name": "PingTick"}]
+                for act in pre:
+                    w.do(act)
+                npings = len(w.pings)
+                if kind == "application-ping":
+                    ent = PingIqProtocolEntity()
+                    w.s.spawn("appping", lambda: w.iface._sendIq(ent, lambda a, b: None, lambda a, b: None))
+                    w.s.quiesce(lambda rr, sc: ([x for x in rr if x.name == "appping"] or rr)[0])
+                    if len(w.pings) != npings + 1:
+                        raise core.MachineryError("application ping not seen by the server double")
+                    w.do({"name": "Pong", "id": npings + 1})
+                else:
+                    w.do({"name": "Pong", "id": 1})           # the pong of connection 1's ping arrives late, on connection 2
+                before = len([x for x in w.wire if x[0] == "disconnect"])
+                w.do({"name": "PingTick"})
+                after = len([x for x in w.wire if x[0] == "disconnect"])
+                if after != before + 1 or w.problems:
+                    r.violation("keepalive:foreign-pong:%s" % kind, "keep-alive ping unanswered, a pong for another ping (%s) arrived, next ping due: the connection was %s (%s)" % (
+                        kind, "not closed" if after == before else "closed %d times" % (after - before), w.problems[:1]), {"kind": kind})
+            except sched.Deadlock as e:
+                r.violation("hang:foreign-pong:%s" % kind, "%s" % e, {"kind": kind})
+            finally:
+                w.close()
         # ---- the recorded finding: a connect request that overtakes the deferred DISCONNECTED event of the previous connection
         for first_end in ("Failure", "DisconnectRequest", "ConnectionLost"):
             hist = [{"name": "ConnectRequest"}, {"name": "DispatcherConnected"}, {"name": "Success"} if first_end != "Failure" else None,
